@@ -201,6 +201,19 @@ func (br *xmpReader) readTagHeader(parent Tag) (tag Tag, err error) {
 		// Find Start of Tag
 		for ; i < len(buf); i++ {
 			if buf[i] == '<' {
+				if i > 0 {
+					// Step over what precedes the tag first, so that the tag name
+					// lies inside the look-ahead wherever the tag starts.
+					if _, err = br.Discard(i); err != nil {
+						err = errors.Wrap(err, "Tag Header (discard)")
+						return
+					}
+					i, s = 0, maxTagHeaderSize
+					if buf, err = br.Peek(s); err != nil {
+						err = errors.Wrap(err, "Tag Header")
+						return
+					}
+				}
 				if buf[i+1] == '/' {
 					tag.t = stopTag
 					i += 2
